@@ -43,6 +43,13 @@ func InstallMigrateStubs(e *Engine) {
 				name = "q"
 			}
 			s[fieldIdx(st, "Name")] = name
+			// with NeedTypes every loaded package carries type information, erroneous ones too
+			if ti := fieldIdxOf(st, "Types"); st.Field(ti).Name() == "Types" {
+				if pt, ok := st.Field(ti).Type().Underlying().(*types.Pointer); ok {
+					var tcell value = zero(pt.Elem())
+					s[ti] = &tcell
+				}
+			}
 			if ps.Choice(2, "pkgerr") == 1 {
 				errT := st.Field(fieldIdx(st, "Errors")).Type().Underlying().(*types.Slice).Elem()
 				pe := zero(errT).(structure)
